@@ -1,5 +1,6 @@
 import Driver.Util
 import CirqVerif.Spec.GateDocs
+import CirqVerif.Spec.GateDocs2
 import CirqVerif.Base.CFloat
 namespace Driver.C03
 open Lean Driver CirqVerif CirqVerif.GateDocs
@@ -70,10 +71,54 @@ def kraus (name : String) (p : List Float) : R (List (M CFloat)) :=
   | "reset" => .ok reset
   | _ => .error s!"unknown channel {name}"
 
+def envF2 : Env2 Float CFloat where
+  toEnv := envF
+  ratA := fun p q => p.toFloat / q.toFloat
+  ratR := fun p q => ⟨p.toFloat / q.toFloat, 0⟩
+  scaleA := fun a p q => a * p.toFloat / q.toFloat
+
+def pM (j : Json) : R (M CFloat) := asList (asList (fun z => do
+  match ← asArr z with
+  | [a, b] => return (⟨← pFloat a, ← pFloat b⟩ : CFloat)
+  | _ => throw "complex number expected")) j
+
+/-- size-parameterised families: integer arguments in "ints", real ones in "params" -/
+def gate2 (name : String) (ns : List Nat) (p : List Float) : R (M CFloat) :=
+  let g (i : Nat) : Float := p.getD i 0
+  let n (i : Nat) : Nat := ns.getD i 0
+  match name with
+  | "qudit_z" => .ok (quditZ envF2 (n 0) (g 0) (g 1))
+  | "qudit_x" => .ok (quditX envF2 (n 0) (g 0) (g 1))
+  | "qft" => .ok (qft envF2 (n 0) (n 1 == 1))
+  | "phase_gradient" => .ok (phaseGradient envF2 (n 0) (g 0))
+  | "qubit_permutation" => .ok (qubitPermutation ns)
+  | "boolean_hamiltonian" => .ok (booleanHamiltonian envF2 (g 0) ns)
+  | "givens" => .ok (givens envF2 (g 0))
+  | "riswap" => .ok (riswap envF2 (g 0))
+  | "cphase" => .ok (cphase envF2 (g 0))
+  | _ => .error s!"unknown gate {name}"
+
+def kraus2 (name : String) (ns : List Nat) (p : List Float) (j : Json) : R (List (M CFloat)) := do
+  let g (i : Nat) : Float := p.getD i 0
+  let n (i : Nat) : Nat := ns.getD i 0
+  match name with
+  | "depolarize" => return depolarize envF2 (g 0) (n 0)
+  | "reset" => return resetD (n 0)
+  | "measure" => return measureProjectors (n 0)
+  | "pauli_mixture" =>
+    let strs ← listF (asList asNat) j "strings"
+    return pauliMixture envF2 (strs.zip p)
+  | "random_gate" =>
+    let sub ← listF pM j "sub"
+    return randomGate envF2 (g 0) sub (n 0)
+  | _ => throw s!"unknown channel {name}"
+
 def handle (op : String) (j : Json) : R Json := do
   match op with
   | "gate" => return jM (← gate (← strF j "name") (← listF pFloat j "params"))
   | "kraus" => return jList jM (← kraus (← strF j "name") (← listF pFloat j "params"))
+  | "gate2" => return jM (← gate2 (← strF j "name") (← listF asNat j "ints") (← listF pFloat j "params"))
+  | "kraus2" => return jList jM (← kraus2 (← strF j "name") (← listF asNat j "ints") (← listF pFloat j "params") j)
   | _ => throw s!"unknown op {op}"
 
 end Driver.C03
